@@ -34,6 +34,9 @@ pub enum COp {
     /// drop the k-th substream held by L's monitor X (releases its lifetime permit)
     DropSubX(usize),
     DropSubY(usize),
+    /// half-close: shut down the write half of the k-th substream held by X (public `AsyncWrite::shutdown`) and keep
+    /// holding it — the substream still exists, so the connection must stay
+    HalfCloseX(usize),
     CutLink(usize),
     KillRemote,
     ForceCloseX,
@@ -88,6 +91,8 @@ pub struct St {
     timeline: Vec<(u32, String)>,
     /// trace class before the end-of-run probes added their own events
     frozen_class: Option<String>,
+    /// substreams temporarily owned by a half-close task (still held)
+    in_flight_holds: std::sync::Arc<std::sync::atomic::AtomicUsize>,
 }
 
 fn spawn_drain<S: futures::Stream + Unpin + Send + 'static>(w: &mut World, node: usize, name: &str, mut s: S)
@@ -166,6 +171,7 @@ impl Scenario for ConnScenario {
             y_exited_at_step: None,
             timeline: Vec::new(),
             frozen_class: None,
+            in_flight_holds: Default::default(),
         }
     }
 
@@ -208,6 +214,19 @@ impl Scenario for ConnScenario {
                     if s.take().is_some() {
                         st.activity.push((st.now, "drop-y".into()));
                     }
+                }
+            }
+            COp::HalfCloseX(k) => {
+                let taken = st.x.substreams.lock().get_mut(k).and_then(|s| s.take());
+                if let Some(mut sub) = taken {
+                    let slots = st.x.substreams.clone();
+                    let holds = st.in_flight_holds.clone();
+                    holds.fetch_add(1, std::sync::atomic::Ordering::SeqCst);
+                    w.spawn_for(st.l, "half-close", async move {
+                        let _ = tokio::io::AsyncWriteExt::shutdown(&mut sub).await;
+                        slots.lock()[k] = Some(sub);
+                        holds.fetch_sub(1, std::sync::atomic::Ordering::SeqCst);
+                    });
                 }
             }
             COp::CutLink(k) => {
@@ -273,7 +292,9 @@ impl Scenario for ConnScenario {
         }
         st.app_seen = al.len();
         drop(al);
-        let held = st.x.substreams.lock().iter().filter(|s| s.is_some()).count() + st.y.substreams.lock().iter().filter(|s| s.is_some()).count();
+        let held = st.x.substreams.lock().iter().filter(|s| s.is_some()).count()
+            + st.y.substreams.lock().iter().filter(|s| s.is_some()).count()
+            + st.in_flight_holds.load(std::sync::atomic::Ordering::SeqCst);
         if st.held_history.last().map(|(_, h)| *h) != Some(held) {
             st.held_history.push((st.now, held));
         }
@@ -585,6 +606,11 @@ pub fn scenarios(filter: &str, thorough: bool) -> Vec<ConnScenario> {
             // keep-alive downgrade while substream opens are pending
             v.push(sc("c08", 2, false, 8, vec![Connect, Wait(1), OpenX, Wait(2), OpenX, Wait(3), OpenX]));
             v.push(sc("c08", 2, false, 8, vec![Connect, ConnectBack, Wait(3), OpenX]));
+            // the secondary connection idles out (downgraded, then closed) while the primary is kept busy; then the
+            // primary ends; then the peer reconnects and must be usable again
+            v.push(sc("c08", 2, false, 8, vec![Connect, ConnectBack, OpenX, Wait(4), KillRemote]));
+            v.push(sc("c08", 2, false, 8, vec![Connect, ConnectBack, OpenX, Wait(4), CutLink(0), Connect, OpenX]));
+            v.push(sc("c08", 2, false, 8, vec![Connect, ConnectBack, OpenX, Wait(4), CutLink(1), CutLink(0), ConnectBack, OpenX]));
             if thorough {
                 v.push(sc("c08", ka, false, 8, vec![Connect, ConnectBack, OpenX, OpenY, CutLink(0), OpenX, OpenY, CutLink(1), Connect, OpenX]));
             }
@@ -615,6 +641,9 @@ pub fn scenarios(filter: &str, thorough: bool) -> Vec<ConnScenario> {
             // idle expiry as the termination cause
             v.push(sc("c07", 2, false, 8, vec![Connect, Wait(4)]));
             v.push(sc("c07", 2, false, 8, vec![Connect, OpenX, DropSubX(0), Wait(4)]));
+            // overlapping connections where the idle secondary goes first, then the busy primary
+            v.push(sc("c07", 2, false, 8, vec![Connect, ConnectBack, OpenX, Wait(4), KillRemote]));
+            v.push(sc("c07", 2, false, 8, vec![Connect, ConnectBack, OpenX, Wait(4), CutLink(0)]));
             // idle expiry racing with inbound substreams of a non-keep-alive protocol (ping opens one per second)
             v.push(sc("c07", 4, true, 12, vec![Connect, Wait(5)]));
             v.push(sc("c07", 4, true, 12, vec![Connect, Wait(3), Wait(2)]));
@@ -630,6 +659,8 @@ pub fn scenarios(filter: &str, thorough: bool) -> Vec<ConnScenario> {
                 v.push(sc("c09", t, ping, tail, vec![Connect, OpenX, Wait(9)]));
                 v.push(sc("c09", t, ping, tail, vec![Connect, Wait(2), OpenY, DropSubY(0), Wait(3), OpenX, DropSubX(0)]));
                 v.push(sc("c09", t, ping, tail, vec![Connect, Wait(5)]));
+                // a half-closed substream is still a substream
+                v.push(sc("c09", t, ping, tail, vec![Connect, OpenX, Wait(1), HalfCloseX(0), Wait(8)]));
                 v.push(sc("c09", t, ping, tail, vec![Connect, Wait(2), RemoteOpenX]));
             }
             // secondary connection role
